@@ -821,6 +821,16 @@ func (t *tree) boolAttr(attrs map[string]string, key string, defaultValue bool) 
 func (t *tree) parseQuotedExpr(str string) ast.Node {
 	var tt = &tree{lex: lexExpr("", str)}
 	defer tt.lex.drain()
+	// an error in the quoted expression is reported in this file, at the position
+	// of the tag that holds it (not at line 1 of a nameless input).
+	defer func() {
+		if e := recover(); e != nil {
+			if _, ok := e.(runtime.Error); ok {
+				panic(e)
+			}
+			t.errorf("in expression %q: %v", str, e)
+		}
+	}()
 	return tt.parseExpr(0)
 }
 
